@@ -135,6 +135,57 @@ theorem sha1_session_eq_spec (block0 : Bytes) (h : block0.length = 64) (msgs : L
   rw [← sha1Hash_eq]
   exact (sha1Laws block0 h).session msgs _ (sha1Laws block0 h).fresh (fun _ _ _ _ => trivial)
 
+/-! ## exact domains
+
+`Spec.pad` (and both state machines) carry the bit length modulo 2^64.  RFC 1321 §3.2 defines MD5 that way
+for every length.  FIPS 180-4 defines SHA-1 only for messages of fewer than 2^64 bits, i.e. **fewer than
+2^61 bytes**: exactly there the length field holds the true bit length and `sha1_stream_eq_spec` is a
+statement about the standard's SHA-1; from 2^61 bytes on it says that code and `Spec.sha1` agree on the
+wrapped length (a convention, not the standard). -/
+
+theorem beVal_be64 (n : Nat) : Spec.beVal (Spec.be64 n) = n % 2 ^ 64 := by
+  have hr : List.range 8 = [0, 1, 2, 3, 4, 5, 6, 7] := by decide
+  simp only [Spec.beVal, Spec.be64, Spec.le64, hr, List.map_cons, List.map_nil, List.reverse_cons, List.reverse_nil,
+    List.nil_append, List.cons_append, List.foldl_cons, List.foldl_nil]
+  simp only [UInt8.toNat_ofNat', Nat.reducePow, Nat.pow_zero, Nat.div_one, Nat.mod_mod]
+  have h7 : n % 18446744073709551616 = (n / 72057594037927936 % 256) * 72057594037927936 + n % 72057594037927936 := by omega
+  have h6 : n % 72057594037927936 = (n / 281474976710656 % 256) * 281474976710656 + n % 281474976710656 := by omega
+  have h5 : n % 281474976710656 = (n / 1099511627776 % 256) * 1099511627776 + n % 1099511627776 := by omega
+  have h4 : n % 1099511627776 = (n / 4294967296 % 256) * 4294967296 + n % 4294967296 := by omega
+  have h3 : n % 4294967296 = (n / 16777216 % 256) * 16777216 + n % 16777216 := by omega
+  have h2 : n % 16777216 = (n / 65536 % 256) * 65536 + n % 65536 := by omega
+  have h1 : n % 65536 = (n / 256 % 256) * 256 + n % 256 := by omega
+  generalize n / 72057594037927936 % 256 = b7 at *
+  generalize n / 281474976710656 % 256 = b6 at *
+  generalize n / 1099511627776 % 256 = b5 at *
+  generalize n / 4294967296 % 256 = b4 at *
+  generalize n / 16777216 % 256 = b3 at *
+  generalize n / 65536 % 256 = b2 at *
+  generalize n / 256 % 256 = b1 at *
+  generalize n % 256 = b0 at *
+  generalize n % 65536 = r1 at *
+  generalize n % 16777216 = r2 at *
+  generalize n % 4294967296 = r3 at *
+  generalize n % 1099511627776 = r4 at *
+  generalize n % 281474976710656 = r5 at *
+  generalize n % 72057594037927936 = r6 at *
+  generalize n % 18446744073709551616 = r7 at *
+  omega
+
+theorem length_field_exact_domain (L : Nat) (h : L < 2 ^ 61) :
+    Spec.beVal (Spec.be64 (8 * L % 2 ^ 64)) = 8 * L ∧ Spec.leVal (Spec.le64 (8 * L % 2 ^ 64)) = 8 * L ∧
+    Gen.sha1BitCount (L % 2 ^ 64) = 8 * L ∧ Spec.beVal (nats (Gen.sha1LenBytes (Gen.sha1BitCount (L % 2 ^ 64)))) = 8 * L := by
+  have e : Gen.sha1BitCount (L % 2 ^ 64) = 8 * L := by simp only [Gen.sha1BitCount]; omega
+  have b : Spec.beVal (Spec.be64 (8 * L % 2 ^ 64)) = 8 * L := by rw [beVal_be64]; omega
+  refine ⟨b, ?_, e, ?_⟩
+  · have : (Spec.le64 (8 * L % 2 ^ 64)).reverse = Spec.be64 (8 * L % 2 ^ 64) := rfl
+    rw [Spec.leVal, this, b]
+  · rw [e, sha1_len_bytes_eq_be64, beVal_be64]; omega
+
+/-- the first length outside the domain: 2^61 bytes = 2^64 bits wraps to a zero length field -/
+example : Gen.sha1BitCount (2 ^ 61 % 2 ^ 64) = 0 ∧ Spec.be64 (8 * 2 ^ 61 % 2 ^ 64) = [0, 0, 0, 0, 0, 0, 0, 0] := by decide
+example : (2 ^ 29 : Nat) < 2 ^ 61 := by decide
+
 /-! ## HMAC -/
 
 /-- RFC 2104 for every lawful streaming digest: any key (hashed first iff longer than the block), any
@@ -158,23 +209,61 @@ theorem hmac_sha1_eq_rfc2104 (block0 : Bytes) (h : block0.length = 64) (key : By
 
 /-! ## CBC -/
 
-theorem cbc_calls_chain {β : Type} (xor : β → β → β) (E D : β → β) (iv : β) (pss css : List (List β)) :
-    cbcEncryptCalls xor E (cbcSetIv iv) pss = Spec.cbcEncrypt xor E iv pss.flatten ∧
-    cbcDecryptCalls xor D (cbcSetIv iv) css = Spec.cbcDecrypt xor D iv css.flatten :=
-  ⟨cbcEncryptCalls_eq xor E pss _, cbcDecryptCalls_eq xor D css _⟩
+/-- the external's contract is satisfiable: the stand-in the driver runs meets it -/
+theorem osslCbc_standard {β : Type} (xor : β → β → β) (E D : β → β) : (osslCbc xor E D).Standard xor E D :=
+  fun _ _ => ⟨rfl, rfl⟩
 
-/-- decryption undoes encryption however both sides cut the stream into calls -/
-theorem cbc_dec_enc {β : Type} (W : β → Prop) (xor : β → β → β) (E D : β → β) (L : CbcLaws W xor E D)
+/-- **Any split of the data into whole-block pieces across calls gives the same result as one call**, for
+`encrypt` and for `decrypt`, from any state of the object — outputs and the IV state left behind.
+Depends on the translated facts that `encrypt` hands `iv_enc_` and `decrypt` hands `iv_dec_` (members,
+not copies) to `AES_cbc_encrypt`. -/
+theorem cbc_multi_call_eq_single_call {β : Type} (X : CbcExt β) (xor : β → β → β) (E D : β → β)
+    (hX : X.Standard xor E D) (s : CbcState β) (pss css : List (List β)) :
+    cbcRun X s (pss.map CbcOp.enc) = cbcRun X s [CbcOp.enc pss.flatten] ∧
+    cbcRun X s (css.map CbcOp.dec) = cbcRun X s [CbcOp.dec css.flatten] := by
+  have e1 := cbcInputsOf_map_enc pss
+  have e2 := cbcInputsOf_map_dec css
+  have f1 := cbcInputsOf_map_enc [pss.flatten]
+  have f2 := cbcInputsOf_map_dec [css.flatten]
+  simp only [List.map_cons, List.map_nil, List.flatten_cons, List.flatten_nil, List.append_nil] at f1 f2
+  constructor
+  · rw [cbcRun_spec hX, cbcRun_spec hX, e1.1, e1.2, f1.1, f1.2]
+  · rw [cbcRun_spec hX, cbcRun_spec hX, e2.1, e2.2, f2.1, f2.2]
+
+/-- any interleaving of `encrypt` and `decrypt` calls on one object after `set_iv`: the encrypt calls
+together produce the CBC encryption of their concatenated inputs from that IV, the decrypt calls the CBC
+decryption of theirs — the two directions do not disturb each other (`set_iv` fills both arrays,
+each direction updates only its own) -/
+theorem cbc_interleaved_calls {β : Type} (X : CbcExt β) (xor : β → β → β) (E D : β → β)
+    (hX : X.Standard xor E D) (s0 : CbcState β) (iv : β) (ops : List (CbcOp β)) :
+    (cbcRun X (cbcSetIv s0 iv) ops).1 = Spec.cbcEncrypt xor E iv (cbcInputsOf true ops) ∧
+    (cbcRun X (cbcSetIv s0 iv) ops).2.1 = Spec.cbcDecrypt xor D iv (cbcInputsOf false ops) := by
+  rw [cbcRun_spec hX, cbcSetIv_eq]
+  exact ⟨rfl, rfl⟩
+
+/-- decryption undoes encryption however sender and receiver cut the stream into calls -/
+theorem cbc_dec_enc {β : Type} (W : β → Prop) (X : CbcExt β) (xor : β → β → β) (E D : β → β)
+    (L : CbcLaws W xor E D) (hX : X.Standard xor E D) (sA sB : CbcState β)
     (iv : β) (hiv : W iv) (pss css : List (List β)) (hps : ∀ p ∈ pss.flatten, W p)
-    (hsame : css.flatten = cbcEncryptCalls xor E (cbcSetIv iv) pss) :
-    cbcDecryptCalls xor D (cbcSetIv iv) css = pss.flatten := by
-  rw [cbcDecryptCalls_eq, hsame, cbcEncryptCalls_eq]
+    (hsame : css.flatten = (cbcRun X (cbcSetIv sA iv) (pss.map CbcOp.enc)).1) :
+    (cbcRun X (cbcSetIv sB iv) (css.map CbcOp.dec)).2.1 = pss.flatten := by
+  rw [(cbc_interleaved_calls X xor E D hX sA iv _).1, (cbcInputsOf_map_enc pss).1] at hsame
+  rw [(cbc_interleaved_calls X xor E D hX sB iv _).2, (cbcInputsOf_map_dec css).1, hsame]
   exact cbcDecrypt_cbcEncrypt L _ iv hiv hps
 
-/-- what `aes_cipher` relies on: a receiver that does not know the IV loses only the first block -/
-theorem cbc_first_block_trick {β : Type} (W : β → Prop) (xor : β → β → β) (E D : β → β) (L : CbcLaws W xor E D)
-    (iv iv' z : β) (bs : List β) (hiv : W iv) (hz : W z) (hbs : ∀ p ∈ bs, W p) :
-    (Spec.cbcDecrypt xor D iv' (Spec.cbcEncrypt xor E iv (z :: bs))).tail = bs := by
+/-- what `aes_cipher` relies on (C05): a receiver whose IV differs (it uses `set_nonce_iv`, two unrelated
+random arrays) loses only the first block -/
+theorem cbc_first_block_trick {β : Type} (W : β → Prop) (X : CbcExt β) (xor : β → β → β) (E D : β → β)
+    (L : CbcLaws W xor E D) (hX : X.Standard xor E D) (sA sB : CbcState β)
+    (iv iv' z : β) (bs : List β) (hiv : W iv) (hz : W z) (hbs : ∀ p ∈ bs, W p) (css : List (List β))
+    (hsame : css.flatten = (cbcRun X (cbcSetIv sA iv) [CbcOp.enc (z :: bs)]).1) :
+    ((cbcRun X (cbcSetIv sB iv') (css.map CbcOp.dec)).2.1).tail = bs := by
+  have h1 := (cbc_interleaved_calls X xor E D hX sA iv [CbcOp.enc (z :: bs)]).1
+  have hin : cbcInputsOf true [CbcOp.enc (z :: bs)] = z :: bs := by
+    have := (cbcInputsOf_map_enc [z :: bs]).1
+    simpa using this
+  rw [h1, hin] at hsame
+  rw [(cbc_interleaved_calls X xor E D hX sB iv' _).2, (cbcInputsOf_map_dec css).1, hsame]
   simp only [Spec.cbcEncrypt, Spec.cbcDecrypt, List.tail_cons]
   exact cbcDecrypt_cbcEncrypt L bs _ (L.enc_wf _ (L.xor_wf _ _ hz hiv)) hbs
 
@@ -210,6 +299,35 @@ theorem key_hex_strict (s : Bytes) :
     · have : s.length % 2 = 1 := by omega
       simp [this]
 
+/-- `key::read_from_file`, by content of the file: an empty file is refused; otherwise trailing blanks, tabs
+and line ends are dropped (`Spec.rstrip`: the longest prefix not ending in white space) and the rest goes
+through `set_hex` — so a key is accepted exactly when that rest is an even number of hex digits, white
+space anywhere else (leading, between digits) is an invalid character, and a file of white space only
+yields the empty key (set_hex's `len == 0` case; the session layer refuses empty keys later) -/
+theorem key_file_strict (content : Bytes) :
+    (readFromFile content = .emptyFile ↔ content = []) ∧
+    (∀ k, readFromFile content = .parsed (.ok k) ↔
+      (content ≠ [] ∧ (Spec.rstrip content).length % 2 = 0 ∧ Spec.fromHex (Spec.rstrip content) = some k)) ∧
+    (readFromFile content = .parsed .oddLength ↔ (content ≠ [] ∧ (Spec.rstrip content).length % 2 = 1)) ∧
+    (readFromFile content = .parsed .invalidChar ↔
+      (content ≠ [] ∧ (Spec.rstrip content).length % 2 = 0 ∧ Spec.fromHex (Spec.rstrip content) = none)) ∧
+    (∃ ws, content = Spec.rstrip content ++ ws ∧ ws.all Spec.isWs = true) ∧
+    (∀ x, (Spec.rstrip content).getLast? = some x → Spec.isWs x = false) := by
+  obtain ⟨hk, ho, hi⟩ := key_hex_strict (Spec.rstrip content)
+  refine ⟨?_, ?_, ?_, ?_, rstrip_append_ws content, rstrip_last_not_ws content⟩
+  all_goals
+    unfold readFromFile
+    rw [stripTrailingWs_eq]
+    cases content with
+    | nil => simp
+    | cons c rest => simp [hk, ho, hi]
+
+example : readFromFile [0x30, 0x61, 0x0d, 0x0a] = .parsed (.ok [0x0a]) := by decide
+example : readFromFile [0x20, 0x0a] = .parsed (.ok []) := by decide
+example : readFromFile [0x30, 0x20, 0x61, 0x31] = .parsed .invalidChar := by decide
+example : readFromFile [0x30, 0x20, 0x61] = .parsed .oddLength := by decide
+example : readFromFile [] = .emptyFile := by decide
+
 /-! ## test vectors — tests of my reading of the standards (`Spec`), not part of the property -/
 
 -- RFC 1321 A.5
@@ -230,6 +348,9 @@ example : Spec.hmac Spec.md5 64 [170, 170, 170, 170, 170, 170, 170, 170, 170, 17
 example : Spec.hmac Spec.sha1 64 [11, 11, 11, 11, 11, 11, 11, 11, 11, 11, 11, 11, 11, 11, 11, 11, 11, 11, 11, 11] [72, 105, 32, 84, 104, 101, 114, 101] = [182, 23, 49, 134, 85, 5, 114, 100, 226, 139, 192, 182, 251, 55, 140, 142, 241, 70, 190, 0] := by decide +kernel
 example : Spec.hmac Spec.sha1 64 [74, 101, 102, 101] [119, 104, 97, 116, 32, 100, 111, 32, 121, 97, 32, 119, 97, 110, 116, 32, 102, 111, 114, 32, 110, 111, 116, 104, 105, 110, 103, 63] = [239, 252, 223, 106, 229, 235, 47, 162, 210, 116, 22, 213, 241, 132, 223, 156, 37, 154, 124, 121] := by decide +kernel
 example : Spec.hmac Spec.sha1 64 [170, 170, 170, 170, 170, 170, 170, 170, 170, 170, 170, 170, 170, 170, 170, 170, 170, 170, 170, 170, 170, 170, 170, 170, 170, 170, 170, 170, 170, 170, 170, 170, 170, 170, 170, 170, 170, 170, 170, 170, 170, 170, 170, 170, 170, 170, 170, 170, 170, 170, 170, 170, 170, 170, 170, 170, 170, 170, 170, 170, 170, 170, 170, 170, 170, 170, 170, 170, 170, 170, 170, 170, 170, 170, 170, 170, 170, 170, 170, 170] [84, 101, 115, 116, 32, 85, 115, 105, 110, 103, 32, 76, 97, 114, 103, 101, 114, 32, 84, 104, 97, 110, 32, 66, 108, 111, 99, 107, 45, 83, 105, 122, 101, 32, 75, 101, 121, 32, 45, 32, 72, 97, 115, 104, 32, 75, 101, 121, 32, 70, 105, 114, 115, 116] = [170, 74, 229, 225, 82, 114, 208, 14, 149, 112, 86, 55, 206, 138, 59, 85, 237, 64, 33, 18] := by decide +kernel
+-- RFC 2202 test case 4: a 25-byte key, longer than the digest and shorter than the block, is used as it is
+example : Spec.hmac Spec.md5 64 [1, 2, 3, 4, 5, 6, 7, 8, 9, 10, 11, 12, 13, 14, 15, 16, 17, 18, 19, 20, 21, 22, 23, 24, 25] [205, 205, 205, 205, 205, 205, 205, 205, 205, 205, 205, 205, 205, 205, 205, 205, 205, 205, 205, 205, 205, 205, 205, 205, 205, 205, 205, 205, 205, 205, 205, 205, 205, 205, 205, 205, 205, 205, 205, 205, 205, 205, 205, 205, 205, 205, 205, 205, 205, 205] = [105, 126, 175, 10, 202, 58, 58, 234, 58, 117, 22, 71, 70, 255, 170, 121] := by decide +kernel
+example : Spec.hmac Spec.sha1 64 [1, 2, 3, 4, 5, 6, 7, 8, 9, 10, 11, 12, 13, 14, 15, 16, 17, 18, 19, 20, 21, 22, 23, 24, 25] [205, 205, 205, 205, 205, 205, 205, 205, 205, 205, 205, 205, 205, 205, 205, 205, 205, 205, 205, 205, 205, 205, 205, 205, 205, 205, 205, 205, 205, 205, 205, 205, 205, 205, 205, 205, 205, 205, 205, 205, 205, 205, 205, 205, 205, 205, 205, 205, 205, 205] = [76, 144, 7, 244, 2, 98, 80, 198, 188, 132, 20, 249, 191, 80, 200, 108, 45, 114, 53, 218] := by decide +kernel
 -- the model's state machines on a message cut across a block boundary, with a dirty buffer, used twice
 example : (md5Obj (List.replicate 64 0xee)).session (md5Obj (List.replicate 64 0xee)).fresh [[[0, 1, 2], [], [3, 4, 5, 6, 7, 8, 9, 10, 11, 12, 13, 14, 15, 16, 17, 18, 19, 20, 21, 22, 23, 24, 25, 26, 27, 28, 29, 30, 31, 32, 33, 34, 35, 36, 37, 38, 39, 40, 41, 42, 43, 44, 45, 46, 47, 48, 49, 50, 51, 52, 53, 54, 55, 56, 57, 58, 59, 60, 61, 62, 63, 64, 65], [66, 67, 68, 69]], [[97, 98, 99]]] = [[95, 31, 95, 100, 184, 68, 0, 251, 154, 214, 216, 236, 217, 193, 66, 160], [144, 1, 80, 152, 60, 210, 79, 176, 214, 150, 63, 125, 40, 225, 127, 114]] := by decide +kernel
 example : (sha1Obj (List.replicate 64 0xee)).session (sha1Obj (List.replicate 64 0xee)).fresh [[[0, 1, 2], [], [3, 4, 5, 6, 7, 8, 9, 10, 11, 12, 13, 14, 15, 16, 17, 18, 19, 20, 21, 22, 23, 24, 25, 26, 27, 28, 29, 30, 31, 32, 33, 34, 35, 36, 37, 38, 39, 40, 41, 42, 43, 44, 45, 46, 47, 48, 49, 50, 51, 52, 53, 54, 55, 56, 57, 58, 59, 60, 61, 62, 63, 64, 65], [66, 67, 68, 69]], [[97, 98, 99]]] = [[194, 72, 135, 146, 79, 146, 173, 172, 90, 227, 103, 153, 93, 18, 105, 28, 102, 43, 115, 98], [169, 153, 62, 54, 71, 6, 129, 106, 186, 62, 37, 113, 120, 80, 194, 108, 156, 208, 216, 157]] := by decide +kernel
